@@ -1,11 +1,682 @@
-//! C16 — check not built yet.
-use mc_core::Args;
-use serde_json::Value;
+//! C16 — pool-migration denomination plans are canonical and conserve value.
+//!
+//! Enumerated: every balance within +-2 of every boundary expression
+//! `q1(+q2(+q3)) + m*buffer + t*fee` over the 19 quanta of the 1-2-5 series between 0.01 and
+//! 10 000 ZEC (multisets, non-increasing), every balance within +-2 of the fee-step chains
+//! (`k` parts for `k` around every multiple of the 14 funding outputs one preparation transaction
+//! mints and around the caps), and {0, 1, MAX_MONEY-1, MAX_MONEY}; x spendable-note counts
+//! x caps x buffers x preparation fees x an alphabet of preparation-cost oracles (incl. stateful
+//! and inconsistent ones) x two random generators. The real `plan_denominations` /
+//! `CanonicalOneTwoFive::plan` run on every element.
+//!
+//! Oracle: an independent canonical split written from the documentation of
+//! `denomination.rs` / `strategies.rs` (u128 arithmetic over a literal table of quanta), the
+//! documented reconcile rule (drop smallest-first until the oracle's fee fits), exact
+//! conservation, the residual bound, RNG independence, no panic.
 
-pub fn replay(_kind: &str, _case: &Value) -> Result<(), String> {
-    Err("C16: check not built".into())
+use mc_core::{catch, Args, Run};
+use rand_chacha::ChaCha8Rng;
+use rand_core::{CryptoRng, RngCore, SeedableRng};
+use rayon::prelude::*;
+use serde_json::{json, Value};
+use std::cell::RefCell;
+use std::num::NonZeroUsize;
+use zcash_pool_migration::denomination::{plan_denominations, CanonicalOneTwoFive, DenominationPlan, DenominationStrategy};
+use zcash_protocol::value::{BalanceError, Zatoshis, MAX_MONEY};
+use zcash_protocol::zip318::{is_canonical_denomination, largest_one_two_five};
+
+// ---------------------------------------------------------------------------------------------
+// Reference model (from the documentation; never calls the code under test)
+// ---------------------------------------------------------------------------------------------
+
+/// Zatoshi per ZEC.
+const ZEC: u128 = 100_000_000;
+/// ZIP 318 `MAX_RESIDUAL_VALUE` (0.01 ZEC) and `DENOM_CAP` (10 000 ZEC), written out.
+const MIN_Q: u128 = ZEC / 100;
+const MAX_Q: u128 = 10_000 * ZEC;
+/// One padded preparation transaction has 16 actions: one input, one change slot, 14 funding notes.
+const NOTES_PER_PREP_TX: u128 = 14;
+
+/// The 19 canonical denominations, ascending, written out (0.01 ZEC .. 10 000 ZEC).
+const QUANTA: [u128; 19] = [
+    1_000_000, 2_000_000, 5_000_000, 10_000_000, 20_000_000, 50_000_000, 100_000_000, 200_000_000, 500_000_000, 1_000_000_000, 2_000_000_000,
+    5_000_000_000, 10_000_000_000, 20_000_000_000, 50_000_000_000, 100_000_000_000, 200_000_000_000, 500_000_000_000, 1_000_000_000_000,
+];
+
+fn quanta() -> Vec<u128> {
+    QUANTA.to_vec()
 }
 
-pub fn run(_args: &Args) -> i32 {
-    mc_core::machinery_error("C16: check not built")
+fn is_quantum(x: u128) -> bool {
+    QUANTA.contains(&x)
+}
+
+fn optimistic_txs(notes: u128) -> u128 {
+    notes.div_ceil(NOTES_PER_PREP_TX)
+}
+
+/// Whether the documented single-note exact-funding case applies.
+fn exact_case(balance: u128, count: usize, cap: usize, buffer: u128) -> bool {
+    count == 1 && cap >= 1 && balance >= buffer && is_quantum(balance - buffer)
+}
+
+/// The canonical split fixed by the balance and by whether a single note holds it: at each step the
+/// largest denomination the remaining budget can fund, each part carrying its buffer, with one
+/// preparation fee reserved per started group of 14 notes; a single note of exactly one
+/// denomination plus its buffer funds that crossing directly with no fee reserve.
+fn ref_split(q_desc: &[u128], balance: u128, count: usize, cap: usize, buffer: u128, fee: u128) -> Vec<u128> {
+    if exact_case(balance, count, cap, buffer) {
+        return vec![balance - buffer];
+    }
+    let mut parts: Vec<u128> = Vec::new();
+    let mut committed = 0u128; // sum of (part + buffer)
+    while parts.len() < cap {
+        let k = parts.len() as u128;
+        let pick = q_desc.iter().copied().find(|q| committed + q + buffer + optimistic_txs(k + 1) * fee <= balance);
+        match pick {
+            Some(q) => {
+                committed += q + buffer;
+                parts.push(q);
+            }
+            None => break,
+        }
+    }
+    parts
+}
+
+// ---------------------------------------------------------------------------------------------
+// Oracle alphabet
+// ---------------------------------------------------------------------------------------------
+
+pub const ORACLES: &[&str] = &["stub", "none", "zero", "over", "big", "usize_max", "refuse_once", "alternating", "flip_max"];
+
+fn stateless(oracle: &str) -> bool {
+    matches!(oracle, "stub" | "none" | "zero" | "over" | "big" | "usize_max")
+}
+
+/// The answer of oracle `kind` to its `call`-th query (0-based) about `len` prepared notes.
+fn answer(kind: &str, call: usize, len: usize) -> Option<usize> {
+    let stub = len.div_ceil(14);
+    match kind {
+        "stub" => Some(stub),
+        "none" => None,
+        "zero" => Some(0),
+        "over" => Some(stub + 1),
+        "big" => Some(1usize << 40),
+        "usize_max" => Some(usize::MAX),
+        "refuse_once" => (call > 0).then_some(stub),
+        "alternating" => match call % 3 {
+            0 => None,
+            1 => Some(stub + 2),
+            _ => Some(0),
+        },
+        "flip_max" => {
+            if call % 2 == 0 {
+                Some(usize::MAX)
+            } else {
+                Some(stub)
+            }
+        }
+        _ => None,
+    }
+}
+
+/// A generator that is not ChaCha: a counter stream. The plan must not depend on it.
+struct CounterRng(u64);
+impl RngCore for CounterRng {
+    fn next_u32(&mut self) -> u32 {
+        self.next_u64() as u32
+    }
+    fn next_u64(&mut self) -> u64 {
+        self.0 = self.0.wrapping_mul(6364136223846793005).wrapping_add(1442695040888963407);
+        self.0
+    }
+    fn fill_bytes(&mut self, dest: &mut [u8]) {
+        for c in dest.chunks_mut(8) {
+            let w = self.next_u64().to_le_bytes();
+            c.copy_from_slice(&w[..c.len()]);
+        }
+    }
+    fn try_fill_bytes(&mut self, dest: &mut [u8]) -> Result<(), rand_core::Error> {
+        self.fill_bytes(dest);
+        Ok(())
+    }
+}
+impl CryptoRng for CounterRng {}
+
+#[derive(Clone, Copy, Debug, PartialEq, Eq)]
+pub struct Case {
+    pub balance: u64,
+    pub count: usize,
+    pub cap: usize,
+    pub buffer: u64,
+    pub fee: u64,
+    pub oracle: &'static str,
+}
+
+impl Case {
+    fn key(&self) -> String {
+        format!(
+            "plan(balance={},count={},cap={},buffer={},fee={},oracle={})",
+            self.balance, self.count, self.cap, self.buffer, self.fee, self.oracle
+        )
+    }
+    fn json(&self) -> Value {
+        json!({"balance": self.balance.to_string(), "count": self.count, "cap": self.cap, "buffer": self.buffer, "fee": self.fee, "oracle": self.oracle})
+    }
+}
+
+/// The questions the strategy asked of the oracle: per question the number of prepared notes and
+/// the answer given; plus the first question (if any) that was not about a prefix of the canonical
+/// split, each part with its buffer.
+#[derive(PartialEq, Default)]
+struct Transcript {
+    calls: Vec<(usize, Option<usize>)>,
+    bad_question: Option<Vec<u64>>,
+}
+
+/// Run the real planner once. `via_wrapper` selects the `plan_denominations` wrapper or the
+/// strategy's trait method; `rng_b` selects the second generator.
+fn run_real(c: &Case, reference: &[u128], via_wrapper: bool, rng_b: bool) -> Result<(DenominationPlan, Transcript), String> {
+    let total = Zatoshis::from_u64(c.balance).map_err(|e| format!("harness: balance: {e:?}"))?;
+    let buffer = Zatoshis::from_u64(c.buffer).map_err(|e| format!("harness: buffer: {e:?}"))?;
+    let fee = Zatoshis::from_u64(c.fee).map_err(|e| format!("harness: fee: {e:?}"))?;
+    let cap = NonZeroUsize::new(c.cap).ok_or("harness: cap 0")?;
+    let transcript: RefCell<Transcript> = RefCell::new(Transcript::default());
+    let buffer128 = c.buffer as u128;
+    let kind = c.oracle;
+    let oracle = |notes: &[Zatoshis]| -> Option<usize> {
+        let mut t = transcript.borrow_mut();
+        let a = answer(kind, t.calls.len(), notes.len());
+        t.calls.push((notes.len(), a));
+        if t.bad_question.is_none() && (notes.len() > reference.len() || notes.iter().zip(reference).any(|(n, r)| n.into_u64() as u128 != r + buffer128)) {
+            t.bad_question = Some(notes.iter().map(|z| z.into_u64()).collect());
+        }
+        a
+    };
+    let plan = catch(|| {
+        if rng_b {
+            let mut rng = CounterRng(0x5eed);
+            if via_wrapper {
+                plan_denominations(total, c.count, cap, buffer, fee, &oracle, &mut rng)
+            } else {
+                CanonicalOneTwoFive::with_max_notes(cap, buffer).plan(total, c.count, fee, &oracle, &mut rng)
+            }
+        } else {
+            let mut rng = ChaCha8Rng::seed_from_u64(0);
+            if via_wrapper {
+                plan_denominations(total, c.count, cap, buffer, fee, &oracle, &mut rng)
+            } else {
+                CanonicalOneTwoFive::with_max_notes(cap, buffer).plan(total, c.count, fee, &oracle, &mut rng)
+            }
+        }
+    })
+    .map_err(|p| format!("panic: {p}"))?;
+    Ok((plan, transcript.into_inner()))
+}
+
+/// Outcome classes (vacuity accounting).
+pub const CLASSES: &[&str] = &["nosplit", "dropped-all", "truncated", "full", "full-at-cap", "exact-direct", "exact-dropped"];
+
+/// Decide one case. `Ok(class index)` or a violation message.
+pub fn check_case(q_desc: &[u128], c: &Case) -> Result<usize, String> {
+    let (balance, buffer, fee) = (c.balance as u128, c.buffer as u128, c.fee as u128);
+    let reference = ref_split(q_desc, balance, c.count, c.cap, buffer, fee);
+    let exact = exact_case(balance, c.count, c.cap, buffer);
+
+    let (plan, transcript) = run_real(c, &reference, true, false)?;
+    let (plan_b, transcript_b) = run_real(c, &reference, false, true)?;
+    if plan != plan_b {
+        return Err(format!("plan depends on the random generator / entry point: {:?} vs {:?}", plan, plan_b));
+    }
+    if transcript != transcript_b {
+        return Err("the oracle was asked different questions under a different random generator".into());
+    }
+
+    let crossings: Vec<u128> = plan.crossing_values().iter().map(|z| z.into_u64() as u128).collect();
+    let outputs: Vec<u128> = catch(|| plan.migration_outputs()).map_err(|p| format!("panic in migration_outputs: {p}"))?.iter().map(|z| z.into_u64() as u128).collect();
+    let change = plan.change().map(|z| z.into_u64() as u128);
+    let prep_fees = plan.prep_fees().into_u64() as u128;
+
+    // canonical, in range, non-increasing, within the cap
+    for (i, &cv) in crossings.iter().enumerate() {
+        if !is_quantum(cv) {
+            return Err(format!("crossing #{i} = {cv} is not a canonical 1-2-5 denomination in [0.01, 10000] ZEC"));
+        }
+        if !is_canonical_denomination(plan.crossing_values()[i]) {
+            return Err(format!("is_canonical_denomination rejects the canonical denomination {cv}"));
+        }
+    }
+    if crossings.windows(2).any(|w| w[0] < w[1]) {
+        return Err(format!("crossings increase: {:?}", crossings));
+    }
+    if crossings.len() > c.cap {
+        return Err(format!("{} crossings exceed the cap {}", crossings.len(), c.cap));
+    }
+    // a prefix of the canonical split
+    if crossings.len() > reference.len() || crossings[..] != reference[..crossings.len()] {
+        return Err(format!("crossings {:?} are not a prefix of the canonical split {:?}", crossings, reference));
+    }
+    // accessors agree
+    if outputs.len() != crossings.len() || outputs.iter().zip(&crossings).any(|(o, cv)| *o != cv + buffer) {
+        return Err(format!("migration_outputs {:?} != crossing + buffer ({:?} + {})", outputs, crossings, buffer));
+    }
+    if plan.note_fee_buffer().into_u64() as u128 != buffer || plan.total_input().into_u64() as u128 != balance {
+        return Err("note_fee_buffer / total_input do not echo the inputs".into());
+    }
+    if plan.total_migratable().into_u64() as u128 != crossings.iter().sum::<u128>() {
+        return Err("total_migratable is not the sum of the crossing values".into());
+    }
+    // conservation
+    let notes_sum: u128 = outputs.iter().sum();
+    if notes_sum + prep_fees + change.unwrap_or(0) != balance {
+        return Err(format!("notes {} + prep fees {} + change {:?} != balance {}", notes_sum, prep_fees, change, balance));
+    }
+    if change == Some(0) {
+        return Err("change is Some(0); documented as None when the balance is consumed exactly".into());
+    }
+    // every question asked of the oracle is a prefix of the canonical split, each part with its buffer
+    if let Some(q) = &transcript.bad_question {
+        return Err(format!("oracle was asked about {:?}, not a prefix of the canonical notes {:?}+{}", q, reference, buffer));
+    }
+    // preparation fees: zero when nothing migrates; otherwise fee x an answer the oracle gave for
+    // exactly the published notes
+    if crossings.is_empty() {
+        if prep_fees != 0 {
+            return Err(format!("nothing migrates but {} preparation fees are reserved", prep_fees));
+        }
+    } else {
+        let ok = transcript.calls.iter().any(|(len, a)| *len == crossings.len() && a.is_some_and(|n| n as u128 * fee == prep_fees));
+        if !ok {
+            return Err(format!("prep fees {} are not fee x any answer the oracle gave for the published {} notes", prep_fees, crossings.len()));
+        }
+    }
+    // reconcile rule for a consistent oracle: the longest prefix whose answered cost fits the balance
+    if stateless(c.oracle) {
+        let mut expect = (0usize, 0u128);
+        for k in (1..=reference.len()).rev() {
+            let sum: u128 = reference[..k].iter().map(|r| r + buffer).sum();
+            if let Some(n) = answer(c.oracle, 0, k) {
+                if sum + n as u128 * fee <= balance {
+                    expect = (k, n as u128 * fee);
+                    break;
+                }
+            }
+        }
+        if (crossings.len(), prep_fees) != expect {
+            return Err(format!(
+                "reconcile: published {} notes with {} prep fees; the longest prefix of {:?} whose answered cost fits is {} notes with {} prep fees",
+                crossings.len(), prep_fees, reference, expect.0, expect.1
+            ));
+        }
+        if c.oracle == "stub" && !exact && crossings.len() != reference.len() {
+            return Err("the count-only oracle charges what the split reserved, yet parts were dropped".into());
+        }
+    }
+    // residual bound: cap not reached and preparation cost what the planner assumed
+    let assumed = if exact { 0 } else { optimistic_txs(reference.len() as u128) * fee };
+    if crossings.len() == reference.len() && prep_fees == assumed && crossings.len() < c.cap {
+        let bound = MIN_Q + buffer + fee;
+        if change.unwrap_or(0) >= bound {
+            return Err(format!("residual {} >= smallest self-funding note + one preparation fee = {}", change.unwrap_or(0), bound));
+        }
+    }
+    // stored-parts round trip (from_stored_parts is the inverse of the accessors)
+    match DenominationPlan::from_stored_parts(plan.crossing_values().to_vec(), plan.note_fee_buffer(), plan.change(), plan.prep_fees(), plan.total_input(), plan.total_migratable()) {
+        Ok(p) if p == plan => {}
+        other => return Err(format!("from_stored_parts(accessors) = {:?}, expected the plan itself", other)),
+    }
+
+    Ok(if exact {
+        if crossings.is_empty() {
+            6
+        } else {
+            5
+        }
+    } else if reference.is_empty() {
+        0
+    } else if crossings.is_empty() {
+        1
+    } else if crossings.len() < reference.len() {
+        2
+    } else if crossings.len() == c.cap {
+        4
+    } else {
+        3
+    })
+}
+
+// ---------------------------------------------------------------------------------------------
+// Side checks on the anchored helpers
+// ---------------------------------------------------------------------------------------------
+
+/// `largest_one_two_five(hi, floor)` against the documented meaning.
+pub fn check_largest(hi: u64, floor: u64) -> Result<&'static str, String> {
+    let mut expect = 0u128;
+    let mut p = floor as u128;
+    while p <= hi as u128 {
+        for m in [1u128, 2, 5] {
+            if m * p <= hi as u128 {
+                expect = expect.max(m * p);
+            }
+        }
+        p *= 10;
+    }
+    match catch(|| largest_one_two_five(hi, floor)) {
+        Ok(v) if v as u128 == expect => Ok(if v == 0 { "largest:zero" } else { "largest:value" }),
+        Ok(v) => Err(format!("largest_one_two_five({hi},{floor}) = {v}, expected {expect}")),
+        Err(p) => Err(format!("panic: {p}")),
+    }
+}
+
+pub fn check_canonical(v: u64) -> Result<&'static str, String> {
+    let z = Zatoshis::from_u64(v).map_err(|e| format!("harness: {e:?}"))?;
+    match catch(|| is_canonical_denomination(z)) {
+        Ok(b) if b == is_quantum(v as u128) => Ok(if b { "canonical:yes" } else { "canonical:no" }),
+        Ok(b) => Err(format!("is_canonical_denomination({v}) = {b}")),
+        Err(p) => Err(format!("panic: {p}")),
+    }
+}
+
+/// `from_stored_parts`: `Err(Overflow)` iff some crossing + buffer exceeds MAX_MONEY; an accepted
+/// plan's `migration_outputs` never panics and equals crossing + buffer.
+pub fn check_stored(crossings: &[u64], buffer: u64) -> Result<&'static str, String> {
+    let z = |v: u64| Zatoshis::from_u64(v).map_err(|e| format!("harness: {e:?}"));
+    let cv: Vec<Zatoshis> = crossings.iter().map(|v| z(*v)).collect::<Result<_, _>>()?;
+    let overflow = crossings.iter().any(|c| *c as u128 + buffer as u128 > MAX_MONEY as u128);
+    let b = z(buffer)?;
+    let r = catch(|| DenominationPlan::from_stored_parts(cv.clone(), b, None, Zatoshis::ZERO, Zatoshis::ZERO, Zatoshis::ZERO)).map_err(|p| format!("panic: {p}"))?;
+    match r {
+        Err(BalanceError::Overflow) if overflow => Ok("stored:overflow"),
+        Ok(p) if !overflow => {
+            let outs = catch(|| p.migration_outputs()).map_err(|p| format!("panic in migration_outputs: {p}"))?;
+            if outs.len() != crossings.len() || outs.iter().zip(crossings).any(|(o, c)| o.into_u64() != c + buffer) {
+                return Err("migration_outputs of a stored plan != crossing + buffer".into());
+            }
+            Ok("stored:ok")
+        }
+        other => Err(format!("from_stored_parts({:?},{}) = {:?}, overflow expected: {}", crossings, buffer, other.map(|_| "Ok"), overflow)),
+    }
+}
+
+// ---------------------------------------------------------------------------------------------
+// Enumeration
+// ---------------------------------------------------------------------------------------------
+
+pub const COUNTS: &[usize] = &[0, 1, 2, 5];
+pub const CAPS: &[usize] = &[1, 2, 3, 63, 64];
+pub const BUFFERS: &[u64] = &[0, 15_000, 1_000_000];
+pub const FEES: &[u64] = &[0, 1, 5_000, 80_000, 999_999];
+
+/// The 18-part "all nines" chain 9999.99 ZEC -> 5000,2000,2000,500,...,0.02,0.02.
+fn nines_chain() -> Vec<u128> {
+    let mut v = Vec::new();
+    let mut p = 1_000 * ZEC;
+    while p >= MIN_Q {
+        v.extend([5 * p, 2 * p, 2 * p]);
+        p /= 10;
+    }
+    v
+}
+
+/// Balances for one (buffer, fee) pair.
+fn balances(max_quanta: usize, exact_quanta: usize, delta: i128, max_m: u128, buffer: u64, fee: u64) -> Vec<u64> {
+    let q = quanta();
+    let (buffer, fee) = (buffer as i128, fee as i128);
+    let mut out: Vec<u64> = vec![0, 1, MAX_MONEY - 1, MAX_MONEY];
+    let mut push = |base: i128| {
+        for d in -delta..=delta {
+            let b = base + d;
+            if (0..=MAX_MONEY as i128).contains(&b) {
+                out.push(b as u64);
+            }
+        }
+    };
+    // sums of <= max_quanta quanta (multisets)
+    let mut sums: Vec<i128> = Vec::new();
+    fn rec(q: &[u128], start: usize, left: usize, acc: i128, sums: &mut Vec<i128>) {
+        if left == 0 {
+            return;
+        }
+        for i in start..q.len() {
+            let s = acc + q[i] as i128;
+            sums.push(s);
+            rec(q, i, left - 1, s, sums);
+        }
+    }
+    rec(&q, 0, max_quanta, 0, &mut sums);
+    sums.sort();
+    sums.dedup();
+    for s in &sums {
+        for m in 0..=max_m as i128 {
+            for t in 0..=2i128 {
+                push(s + m * buffer + t * fee);
+            }
+        }
+    }
+    // sums of exactly `exact_quanta` quanta: only the exactly funded ones (one buffer per part,
+    // with and without the single preparation fee)
+    if exact_quanta > max_quanta {
+        let mut sums: Vec<i128> = Vec::new();
+        fn rec_exact(q: &[u128], start: usize, left: usize, acc: i128, sums: &mut Vec<i128>) {
+            if left == 0 {
+                sums.push(acc);
+                return;
+            }
+            for i in start..q.len() {
+                rec_exact(q, i, left - 1, acc + q[i] as i128, sums);
+            }
+        }
+        rec_exact(&q, 0, exact_quanta, 0, &mut sums);
+        sums.sort();
+        sums.dedup();
+        for s in &sums {
+            push(s + exact_quanta as i128 * buffer);
+            push(s + exact_quanta as i128 * buffer + fee);
+        }
+    }
+    // fee-step chains: exactly k parts, k around the multiples of 14 and around the caps
+    let chain = nines_chain();
+    for k in [13usize, 14, 15, 16, 27, 28, 29, 42, 43, 56, 57, 62, 63, 64, 65] {
+        for j in [0usize, 3, chain.len()] {
+            let j = j.min(k);
+            let s: i128 = (k - j) as i128 * MAX_Q as i128 + chain[..j].iter().sum::<u128>() as i128;
+            let txs = (k as i128 + 13) / 14;
+            for t in [txs - 1, txs, txs + 1] {
+                push(s + k as i128 * buffer + t * fee);
+            }
+        }
+    }
+    out.sort();
+    out.dedup();
+    out
+}
+
+fn parse_case(case: &Value) -> Result<Case, String> {
+    let oracle = case["oracle"].as_str().unwrap_or("");
+    let oracle = ORACLES.iter().copied().find(|o| *o == oracle).ok_or(format!("unknown oracle {oracle}"))?;
+    Ok(Case {
+        balance: case["balance"].as_str().and_then(|s| s.parse().ok()).ok_or("bad balance")?,
+        count: case["count"].as_u64().ok_or("bad count")? as usize,
+        cap: case["cap"].as_u64().ok_or("bad cap")? as usize,
+        buffer: case["buffer"].as_u64().ok_or("bad buffer")?,
+        fee: case["fee"].as_u64().ok_or("bad fee")?,
+        oracle,
+    })
+}
+
+pub fn replay(kind: &str, case: &Value) -> Result<(), String> {
+    let num = |v: &Value| -> u64 { v.as_str().and_then(|s| s.parse().ok()).unwrap_or(0) };
+    match kind {
+        "plan" => {
+            let mut q = quanta();
+            q.reverse();
+            check_case(&q, &parse_case(case)?).map(|_| ())
+        }
+        "largest" => check_largest(num(&case["hi"]), num(&case["floor"])).map(|_| ()),
+        "canonical" => check_canonical(num(&case["v"])).map(|_| ()),
+        "stored" => {
+            let cv: Vec<u64> = case["crossings"].as_array().map(|a| a.iter().map(num).collect()).unwrap_or_default();
+            check_stored(&cv, num(&case["buffer"])).map(|_| ())
+        }
+        _ => Err(format!("unknown kind {kind}")),
+    }
+}
+
+pub fn run(args: &Args) -> i32 {
+    let run = Run::new(args, "exploration");
+    run.set_rule(
+        "every (balance, spendable-note count, cap, buffer, preparation fee, oracle) with the balance within +-delta of a boundary expression \
+         q1(+q2(+q3)) + m*buffer + t*fee over the 19 quanta (multisets; one more quantum for the exactly funded sums), or of a k-part fee-step chain (k around multiples of 14 and the caps), or in \
+         {0,1,MAX_MONEY-1,MAX_MONEY}; each case runs the real planner twice (plan_denominations with ChaCha8, the strategy's plan() with a counter \
+         generator); a case is distinct by the tuple (balances de-duplicated per buffer/fee pair); oracle = independent canonical split + reconcile \
+         rule + conservation in u128",
+    );
+    run.assume("the reference split, the 14-notes-per-preparation-transaction reserve and the single-note exact-funding case are taken from the doc comments of denomination.rs and strategies.rs");
+    run.assume("'preparation costs what the planner assumed' is read as: nothing was dropped and the reserved fees equal the optimistic reserve (zero in the exact-funding case); only then is the residual bound demanded");
+    run.assume("for the stateful/inconsistent oracles (refuse_once, alternating, flip_max) the number of published parts is not predicted; prefix, conservation, fee-from-an-actual-answer, cap and no-panic are still demanded");
+    let mut q_desc = quanta();
+    q_desc.reverse();
+    run.require(QUANTA[0] == MIN_Q && QUANTA[18] == MAX_Q, "quanta table spans 0.01..10000 ZEC");
+
+    // side checks -----------------------------------------------------------------------------
+    let mut n_side = 0u64;
+    // at most a few failures per side check, so the bounded failure list keeps room for the plans
+    let side_counts = RefCell::new(std::collections::BTreeMap::<&str, u32>::new());
+    let side_fail = |kind: &'static str, key: String, msg: String, case: Value| {
+        let mut g = side_counts.borrow_mut();
+        let c = g.entry(kind).or_insert(0);
+        if *c < 3 {
+            *c += 1;
+            run.fail(kind, key, msg, case);
+        }
+    };
+    let mut series: Vec<u64> = vec![0, 1, 2, 3, u64::MAX - 1, u64::MAX];
+    let mut p: u128 = 1;
+    while p <= u64::MAX as u128 {
+        for m in [1u128, 2, 5] {
+            for d in -1i128..=1 {
+                let v = (m * p) as i128 + d;
+                if (0..=u64::MAX as i128).contains(&v) {
+                    series.push(v as u64);
+                }
+            }
+        }
+        p *= 10;
+    }
+    series.sort();
+    series.dedup();
+    for &hi in &series {
+        for floor in [1u64, 10, 1_000_000, 1_000_000_000_000, 10_000_000_000_000_000_000] {
+            n_side += 1;
+            match check_largest(hi, floor) {
+                Ok(o) => run.outcome(o),
+                Err(m) => side_fail("largest", format!("largest({hi},{floor})"), m, json!({"hi": hi.to_string(), "floor": floor.to_string()})),
+            }
+        }
+        if hi <= MAX_MONEY {
+            n_side += 1;
+            match check_canonical(hi) {
+                Ok(o) => run.outcome(o),
+                Err(m) => side_fail("canonical", format!("canonical({hi})"), m, json!({"v": hi.to_string()})),
+            }
+        }
+    }
+    let edge: Vec<u64> = vec![0, 1, 1_000_000, 1_000_000_000_000, MAX_MONEY / 2, MAX_MONEY / 2 + 1, MAX_MONEY - 1, MAX_MONEY];
+    for &a in &edge {
+        for &b in &edge {
+            for &buf in &edge {
+                for cv in [vec![], vec![a], vec![a, b]] {
+                    n_side += 1;
+                    match check_stored(&cv, buf) {
+                        Ok(o) => run.outcome(o),
+                        Err(m) => side_fail("stored", format!("stored({:?},{buf})", cv), m, json!({"crossings": cv.iter().map(|v| v.to_string()).collect::<Vec<_>>(), "buffer": buf.to_string()})),
+                    }
+                }
+            }
+        }
+    }
+    run.eval_distinct(n_side);
+
+    // main sweep ------------------------------------------------------------------------------
+    let max_quanta = args.tier.pick(2, 3);
+    let exact_quanta = args.tier.pick(3, 4);
+    let delta = args.tier.pick(2, 3);
+    let max_m = args.tier.pick(3, 4);
+    let wall_cap = args.tier.pick(50.0, 900.0);
+    run.section(
+        "alphabet",
+        json!({"quanta": 19, "max_quanta_per_expression": max_quanta, "quanta_in_exactly_funded_sums": exact_quanta, "delta": delta, "max_buffers_m": max_m, "max_fees_t": 2,
+               "counts": COUNTS, "caps": CAPS, "buffers": BUFFERS, "fees": FEES, "oracles": ORACLES, "generators": ["ChaCha8(seed 0) via plan_denominations", "counter LCG via CanonicalOneTwoFive::plan"]}),
+    );
+    let mut total_balances = 0u64;
+    let hist = std::sync::Mutex::new(vec![0u64; ORACLES.len() * CLASSES.len()]);
+    let capped = std::sync::atomic::AtomicBool::new(false);
+    let plan_failures = std::sync::atomic::AtomicU32::new(0);
+    for &buffer in BUFFERS {
+        for &fee in FEES {
+            let bals = balances(max_quanta, exact_quanta, delta as i128, max_m as u128, buffer, fee);
+            total_balances += bals.len() as u64;
+            bals.par_chunks(64).for_each(|chunk| {
+                if run.elapsed() > wall_cap {
+                    capped.store(true, std::sync::atomic::Ordering::Relaxed);
+                    return;
+                }
+                let mut local = vec![0u64; ORACLES.len() * CLASSES.len()];
+                let mut n = 0u64;
+                for &balance in chunk {
+                    for &count in COUNTS {
+                        for &cap in CAPS {
+                            for (oi, &oracle) in ORACLES.iter().enumerate() {
+                                let c = Case { balance, count, cap, buffer, fee, oracle };
+                                n += 1;
+                                match check_case(&q_desc, &c) {
+                                    Ok(class) => local[oi * CLASSES.len() + class] += 1,
+                                    Err(m) => {
+                                        // keep room in the bounded failure list for the side checks
+                                        if plan_failures.fetch_add(1, std::sync::atomic::Ordering::Relaxed) < 30 {
+                                            run.fail("plan", c.key(), m, c.json())
+                                        }
+                                    }
+                                }
+                            }
+                        }
+                    }
+                }
+                run.eval_distinct(n);
+                let mut h = hist.lock().unwrap();
+                for (a, b) in h.iter_mut().zip(&local) {
+                    *a += b;
+                }
+            });
+        }
+    }
+    if capped.load(std::sync::atomic::Ordering::Relaxed) {
+        run.cap_hit(&format!("wall cap {wall_cap}s hit during the balance sweep; remaining chunks skipped"));
+    }
+    run.section("balances_enumerated", json!(total_balances));
+    let h = hist.into_inner().unwrap();
+    for (oi, o) in ORACLES.iter().enumerate() {
+        for (ci, c) in CLASSES.iter().enumerate() {
+            if h[oi * CLASSES.len() + ci] > 0 {
+                run.outcome_n(&format!("{o}:{c}"), h[oi * CLASSES.len() + ci]);
+            }
+        }
+    }
+    run.sample(json!({"balance": "10000000000", "count": 2, "cap": 64, "buffer": 15000, "fee": 80000, "oracle": "usize_max", "expected": "empty plan (an absurd cost never fits), no panic"}));
+    run.sample(json!({"balance": "100015000", "count": 1, "cap": 3, "buffer": 15000, "fee": 80000, "oracle": "zero", "expected": "[1 ZEC], no prep fee, no change (single-note exact funding)"}));
+    run.sample(json!({"balance": "100015000", "count": 2, "cap": 3, "buffer": 15000, "fee": 80000, "oracle": "stub", "expected": "[0.5, 0.2, 0.2] ZEC with one prep fee"}));
+    run.require(
+        run.outcomes_distinct() >= 30 || run.failure_count() > 0,
+        "fewer than 30 distinct (oracle, plan class) outcomes observed",
+    );
+    let seen = |o: &str, c: &str| -> bool {
+        let oi = ORACLES.iter().position(|x| *x == o).expect("oracle name");
+        let ci = CLASSES.iter().position(|x| *x == c).expect("class name");
+        h[oi * CLASSES.len() + ci] > 0
+    };
+    for (o, c) in [("stub", "full"), ("stub", "full-at-cap"), ("stub", "nosplit"), ("stub", "exact-dropped"), ("zero", "exact-direct"), ("over", "truncated"), ("none", "dropped-all"), ("refuse_once", "truncated")] {
+        run.require(seen(o, c) || run.failure_count() > 0, &format!("outcome {o}:{c} never observed"));
+    }
+    run.finish(&replay)
 }
